@@ -32,6 +32,7 @@ mod e04;
 mod e05;
 mod e07;
 mod e08;
+mod e09;
 mod c05;
 
 #[global_allocator]
@@ -77,6 +78,7 @@ fn props() -> Vec<Prop> {
         Prop { id: "E06", run: c13::run, gen: c13::gen_e06 },
         Prop { id: "E07", run: e07::run, gen: e07::gen },
         Prop { id: "E08", run: e08::run, gen: e08::gen },
+        Prop { id: "E09", run: e09::run, gen: e09::gen },
     ]
 }
 
